@@ -404,6 +404,12 @@ func (s *fsm13) handleReceivedFlight( //nolint:cyclop
 		if ackErr := sendACK(ctx, conn, s.state.LocalEpoch(), received.RecordsToACK); ackErr != nil {
 			return receivedFlightTransition{}, ackErr
 		}
+		if received.IsRetransmit && s.currentFlight == dtlsflight13.Flight2 && len(s.flights) != 0 {
+			// A HelloRetryRequest is never re-sent by the timer. The client
+			// repeating its first ClientHello means the request was lost, so
+			// answer the retransmission with the same request.
+			return receivedFlightTransition{state: StateSending}, nil
+		}
 
 		return s.transitionAfterACK(ackResult, received.IsRetransmit), nil
 	}
